@@ -7,6 +7,7 @@ package main
 import (
 	"fmt"
 	"math/big"
+	"sort"
 	"strings"
 
 	"github.com/zclconf/go-cty/cty"
@@ -547,14 +548,22 @@ func (g *gen) genBlockSpec(t string, depth int, static bool) *gspec {
 	}
 	k := kinds[g.r.Intn(len(kinds))]
 	s := &gspec{Kind: k, Name: t}
-	nlab := 0
-	if g.r.Chance(0.35) {
-		nlab = 1 + g.r.Intn(2)
+	defer func() {
+		if k != "blockattrs" {
+			g.f(fmt.Sprintf("labels:schema-count=%d|%s", len(s.Labels)+s.Kids[0].nLabelSpecs(), k))
+		}
+	}()
+	// total label count of the block header: 0..6, for EVERY kind that can carry
+	// labels (BlockLabelSpec children read each index; BlockMap/BlockObject take
+	// 1..5 of them as LabelNames and leave the rest to BlockLabelSpecs)
+	total := 0
+	if g.r.Chance(0.55) {
+		total = 1 + g.r.Intn(6)
 	}
 	switch k {
 	case "block":
 		s.Req = g.r.Chance(0.3)
-		s.Kids = []*gspec{g.genLevel(depth+1, nlab, static)}
+		s.Kids = []*gspec{g.genLevel(depth+1, total, static)}
 	case "blocklist", "blockset", "blocktuple":
 		if g.r.Chance(0.15) {
 			s.Min = g.r.Intn(3)
@@ -562,25 +571,19 @@ func (g *gen) genBlockSpec(t string, depth int, static bool) *gspec {
 		if g.r.Chance(0.15) {
 			s.Max = 1 + g.r.Intn(3)
 		}
-		s.Kids = []*gspec{g.genLevel(depth+1, nlab, static)}
-	case "blockmap":
-		n := 1 + g.r.Intn(2)
+		s.Kids = []*gspec{g.genLevel(depth+1, total, static)}
+	case "blockmap", "blockobject":
+		if total == 0 || g.r.Chance(0.3) {
+			total = 1 + g.r.Intn(6)
+		}
+		n := 1 + g.r.Intn(total)
+		if n > 5 {
+			n = 5
+		}
 		for i := 0; i < n; i++ {
 			s.Labels = append(s.Labels, fmt.Sprintf("key%d", i))
 		}
-		if nlab == 2 {
-			nlab = 1
-		}
-		s.Kids = []*gspec{g.genLevel(depth+1, nlab, true)}
-	case "blockobject":
-		n := 1 + g.r.Intn(2)
-		for i := 0; i < n; i++ {
-			s.Labels = append(s.Labels, fmt.Sprintf("key%d", i))
-		}
-		if nlab == 2 {
-			nlab = 1
-		}
-		s.Kids = []*gspec{g.genLevel(depth+1, nlab, static)}
+		s.Kids = []*gspec{g.genLevel(depth+1, total-n, static || k == "blockmap")}
 	case "blockattrs":
 		ty := []cty.Type{cty.String, cty.Number, cty.Bool, cty.List(cty.String)}[g.r.Intn(4)]
 		if !static && g.r.Chance(0.2) {
@@ -593,6 +596,26 @@ func (g *gen) genBlockSpec(t string, depth int, static bool) *gspec {
 }
 
 // ---- configurations -------------------------------------------------------------------------
+
+// labels that differ from the pool's favourites, to end a shared prefix
+var freshLabels = []string{"z1", "z2", "z3", "other"}
+
+func lcp(a, b []string) int {
+	n := 0
+	for n < len(a) && n < len(b) && a[n] == b[n] {
+		n++
+	}
+	return n
+}
+
+func lessLabels(a, b []string) bool {
+	for i := 0; i < len(a) && i < len(b); i++ {
+		if a[i] != b[i] {
+			return a[i] < b[i]
+		}
+	}
+	return len(a) < len(b)
+}
 
 func (g *gen) labels(n int) []string {
 	out := make([]string, n)
@@ -646,15 +669,43 @@ func (g *gen) genCfg(t *STree, depth int) *Cfg {
 		default:
 			n = g.r.Small(4)
 		}
+		if b.Labels > 0 && n > 0 && g.r.Chance(0.6) {
+			n += 1 + g.r.Intn(3) // labelled types: enough siblings for names to collide
+		}
+		var sibs []Item
 		for i := 0; i < n; i++ {
 			var body *Cfg
-			if depth < 4 {
+			if depth < 4 && (b.Labels < 3 || i < 2 || g.r.Chance(0.3)) {
 				body = g.genCfg(t.kid(b.Type), depth+1)
 			} else {
 				body = &Cfg{Items: []Item{}}
 			}
-			blocks = append(blocks, Item{Type: b.Type, Labels: g.labels(b.Labels), Body: body})
+			ls := g.labels(b.Labels)
+			if i > 0 && b.Labels > 0 && g.r.Chance(0.8) {
+				// share a label PREFIX of a chosen length with an earlier sibling: every
+				// length 0..L (L = the identical tuple, which BlockMap/BlockObject reject)
+				prev := sibs[g.r.Intn(len(sibs))].Labels
+				p := g.r.Intn(b.Labels + 1)
+				copy(ls, prev[:p])
+				if p < b.Labels && ls[p] == prev[p] {
+					ls[p] = freshLabels[g.r.Intn(len(freshLabels))] // differ right after the prefix
+				}
+			}
+			sibs = append(sibs, Item{Type: b.Type, Labels: ls, Body: body})
 		}
+		if b.Labels > 0 && len(sibs) > 1 {
+			if g.r.Chance(0.6) {
+				// siblings with a common prefix next to each other: they can share nested label objects
+				sort.SliceStable(sibs, func(i, j int) bool { return lessLabels(sibs[i].Labels, sibs[j].Labels) })
+				g.f("cfg:siblings-sorted-by-labels")
+			}
+			for i := range sibs {
+				for j := i + 1; j < len(sibs); j++ {
+					g.f(fmt.Sprintf("cfg:sibling-pair labels=%d shared-prefix=%d", b.Labels, lcp(sibs[i].Labels, sibs[j].Labels)))
+				}
+			}
+		}
+		blocks = append(blocks, sibs...)
 	}
 	if g.r.Chance(0.05) {
 		// names the schema does not know: reported by both syntaxes
@@ -662,12 +713,12 @@ func (g *gen) genCfg(t *STree, depth int) *Cfg {
 			attrs = append(attrs, Item{Attr: "zz", Val: g.genLit(1)})
 			g.f("cfg:unknown-attribute")
 		} else {
-			blocks = append(blocks, Item{Type: "nob", Labels: g.labels(g.r.Intn(2)), Body: &Cfg{Items: []Item{}}})
+			blocks = append(blocks, Item{Type: "nob", Labels: g.labels(g.r.Intn(5)), Body: &Cfg{Items: []Item{}}})
 			g.f("cfg:unknown-block-type")
 		}
 	}
 	all := append(attrs, blocks...)
-	if g.r.Chance(0.5) {
+	if g.r.Chance(0.35) {
 		g.r.Shuffle(len(all), func(i, j int) { all[i], all[j] = all[j], all[i] })
 		g.f("cfg:items-shuffled")
 	}
@@ -923,6 +974,9 @@ func (e *enc) run(blocks []*Item, level int, kid *STree, kind string) *jn {
 	}
 	if len(groups) > 1 {
 		e.form("label-level-several-properties", kind)
+		// siblings that share their first `level` labels meet in ONE label object
+		// (or array of objects) at depth level+1 of k
+		e.g.f(fmt.Sprintf("enc:siblings-meet labels=%d at-level=%d", k, level+1))
 	}
 	return e.layout(m, true, "label-level-array-of-objects", kind)
 }
